@@ -363,4 +363,82 @@ theorem adaptive_rounds (n : Nat) (sn : List (List Nat)) (order : List Nat) (kA 
           exact adaptRound_links n sn kA h3 order R1 R2 hr l hl
 
 
+/-! ### the inter-system matrix as four slice assignments -/
+
+theorem pyBound_nat (k n : Nat) : pyBound (k : Int) n = min k n := by
+  unfold pyBound
+  have : ¬ ((k : Int) < 0) := by omega
+  simp [this]
+
+theorem tab_congr_lt {α : Type} (n k : Nat) (f g : Nat → Nat → α)
+    (h : ∀ i j, i < n → j < k → f i j = g i j) : tab n k f = tab n k g := by
+  unfold tab
+  apply List.map_congr_left
+  intro i hi
+  apply List.map_congr_left
+  intro j hj
+  exact h i j (List.mem_range.mp hi) (List.mem_range.mp hj)
+
+theorem transpose_fits (CR : List (List Bool)) (Nx Ny : Nat) :
+    ((transpose CR Nx Ny).length == Ny && (transpose CR Nx Ny).all (·.length == Nx)) = true := by
+  simp only [transpose, Bool.and_eq_true, beq_iff_eq, tab_length, List.all_eq_true, true_and]
+  intro r hr
+  simp only [tab, List.mem_map, List.mem_range] at hr
+  obtain ⟨i, _, rfl⟩ := hr
+  simp
+
+theorem tab_getD (n k : Nat) (f : Nat → Nat → Bool) (i j : Nat) (hi : i < n) (hj : j < k) :
+    ((tab n k f).getD i []).getD j false = f i j := by
+  simp [tab, List.getD_eq_getElem?_getD, hi, hj]
+
+theorem transpose_getD (CR : List (List Bool)) (Nx Ny i j : Nat) (hi : i < Ny) (hj : j < Nx) :
+    ((transpose CR Nx Ny).getD i []).getD j false = (CR.getD j []).getD i false := by
+  unfold transpose
+  exact tab_getD Ny Nx _ i j hi hj
+
+/-- the four slots of `inter_system_recurrence_matrix` with the bounds `0, N_x, N` -/
+theorem assemble_isrm (Nx Ny : Nat) (Rx Ry CR : List (List Bool)) :
+    assemble (Nx + Ny)
+      [(⟨0, Nx, 0, Nx⟩, Rx), (⟨0, Nx, Nx, (Nx + Ny : Nat)⟩, CR),
+       (⟨Nx, (Nx + Ny : Nat), 0, Nx⟩, transpose CR Nx Ny), (⟨Nx, (Nx + Ny : Nat), Nx, (Nx + Ny : Nat)⟩, Ry)]
+      = isrm Nx Ny Rx Ry CR := by
+  have h0 : pyBound (0 : Int) (Nx + Ny) = 0 := by
+    have := pyBound_nat 0 (Nx + Ny); simpa using this
+  have hx : pyBound (Nx : Int) (Nx + Ny) = Nx := by rw [pyBound_nat]; omega
+  have hN : pyBound ((Nx + Ny : Nat) : Int) (Nx + Ny) = Nx + Ny := by rw [pyBound_nat]; omega
+  have hT := transpose_fits CR Nx Ny
+  simp only [Bool.and_eq_true] at hT
+  unfold assemble isrm
+  simp only [List.all_cons, List.all_nil, Slot.fits, Slot.r0, Slot.r1, Slot.c0, Slot.c1, h0, hx, hN,
+    Nat.sub_zero, Nat.add_sub_cancel_left, hT.1, hT.2, Bool.and_true, Bool.true_and]
+  by_cases hfit : ((Rx.length == Nx && Rx.all fun x => x.length == Nx) &&
+      (Ry.length == Ny && Ry.all fun x => x.length == Ny) &&
+      (CR.length == Nx && CR.all fun x => x.length == Ny)) = true
+  · rw [if_pos hfit]
+    simp only [Bool.and_eq_true] at hfit
+    rw [if_pos (by simp only [Bool.and_eq_true]; exact ⟨hfit.1.1, hfit.2, hfit.1.2⟩)]
+    congr 1
+    apply tab_congr_lt
+    intro i j hi hj
+    simp only [List.reverse_cons, List.reverse_nil, List.nil_append, List.cons_append,
+      List.find?_cons, List.find?_nil, Slot.has, Slot.r0, Slot.r1, Slot.c0, Slot.c1, h0, hx, hN]
+    by_cases h1 : i < Nx <;> by_cases h2 : j < Nx
+    · have a1 : ¬ (Nx ≤ i) := by omega
+      have a2 : ¬ (Nx ≤ j) := by omega
+      simp [h1, h2, a1, a2, h0, hx]
+    · have a1 : ¬ (Nx ≤ i) := by omega
+      have a2 : Nx ≤ j := by omega
+      simp [h1, h2, a1, a2, hj, h0, hx]
+    · have a1 : Nx ≤ i := by omega
+      have a2 : ¬ (Nx ≤ j) := by omega
+      have ht := transpose_getD CR Nx Ny (i - Nx) j (by omega) h2
+      simp only [List.getD_eq_getElem?_getD] at ht
+      simp [h1, h2, a1, a2, hi, h0, hx, ht]
+    · have a1 : Nx ≤ i := by omega
+      have a2 : Nx ≤ j := by omega
+      simp [h1, h2, a1, a2, hi, hj, h0, hx]
+  · rw [if_neg hfit]
+    simp only [Bool.and_eq_true] at hfit
+    rw [if_neg (by simp only [Bool.and_eq_true]; exact fun h => hfit ⟨⟨h.1, h.2.2⟩, h.2.1⟩)]
+
 end Pyunicorn.Recurrence
